@@ -680,6 +680,12 @@ func restoreGroupState(group *metadatapb.ConsumerGroup) *groupState {
 			sessionTimeout: sessionTimeout,
 			joinGeneration: group.GenerationId,
 		}
+		if state.state == groupStatePreparingRebalance {
+			// Which members had already re-joined is not persisted. Treat all of
+			// them as pending so a half-finished rebalance cannot look complete
+			// to the coordinator that takes over.
+			entry.joinGeneration = 0
+		}
 		if member.HeartbeatAt != "" {
 			if parsed, err := time.Parse(time.RFC3339Nano, member.HeartbeatAt); err == nil {
 				entry.lastHeartbeat = parsed
